@@ -27,17 +27,23 @@ def build_module(mn, mx):
     m.add_func([], [I32], [], [('memory.size',)], export='size')
     m.add_func([I32, I32], [], [], [('local.get', 0), ('local.get', 1), ('i32.store', 2, 0)], export='store')
     m.add_func([I32], [I32], [], [('local.get', 0), ('i32.load', 2, 0)], export='load')
+    # instructions of the threads proposal that other threads execute on the same memory while it grows
+    m.add_func([I32, I32], [I32], [], [('local.get', 0), ('local.get', 1), ('i64.const', 0), ('memory.atomic.wait32', 2, 0)], export='wait0')
+    m.add_func([I32, I32], [I32], [], [('local.get', 0), ('local.get', 1), ('memory.atomic.notify', 2, 0)], export='notify')
+    m.add_func([I32, I32], [I32], [], [('local.get', 0), ('local.get', 1), ('i32.atomic.rmw.add', 2, 0)], export='aadd')
     return m
 
 
 def check_history(text):
     V = []
     init = mx = final = None
+    counter = -1
     ops = []
     for l in text.splitlines():
         if l.startswith('INIT'):
             kv = dict(x.split('=') for x in l.split(' ')[1:])
             init, mx, final = int(kv['pages']), int(kv['max']), int(kv['final'])
+            counter = int(kv.get('counter', -1))
         elif l.startswith('O '):
             t = l.split(' ')
             ops.append(dict(t=int(t[1]), c=int(t[2]), r=int(t[3]), op=int(t[4]), arg=int(t[5]), res=int(t[6])))
@@ -45,7 +51,7 @@ def check_history(text):
         return [('C18:harness', 'no INIT line')], {}, ()
     FAIL = 0xffffffff
     succ = [o for o in ops if o['op'] == 0 and o['res'] != FAIL and o['arg'] > 0]
-    stats = {'ops': len(ops), 'frontier_ops': sum(1 for o in ops if o['op'] >= 4), 'grows_ok': len(succ), 'grows_failed': sum(1 for o in ops if o['op'] == 0 and o['res'] == FAIL),
+    stats = {'ops': len(ops), 'frontier_ops': sum(1 for o in ops if 4 <= o['op'] <= 6), 'grows_ok': len(succ), 'grows_failed': sum(1 for o in ops if o['op'] == 0 and o['res'] == FAIL),
              'growing_threads': len(set(o['t'] for o in succ))}
     # chain
     olds = sorted(succ, key=lambda o: o['res'])
@@ -105,6 +111,19 @@ def check_history(text):
             V.append(('C18:new-page-not-zero', 'thread %d read %#x from a never-written cell of page %d that it had observed to exist (new pages must be zero)' % (o['t'], o['res'], o['arg'])))
         if o['op'] == 6 and o['res'] != o['arg']:
             V.append(('C18:data-lost:grown-page', 'thread %d loaded %#x from its private cell in a page added by a grow, last stored %#x (a store made after the new size was observed was undone)' % (o['t'], o['res'], o['arg'])))
+    # operations of other kinds executed while the memory grows keep their own specified results
+    adds = [o for o in ops if o['op'] == 9]
+    for o in ops:
+        if o['op'] == 7 and o['res'] != (2 if o['arg'] else 1):
+            V.append(('C18:concurrent-wait-result', 'thread %d: memory.atomic.wait32 with timeout 0 on its private cell (%s expected value) returned %d' % (o['t'], 'equal' if o['arg'] else 'different', o['res'])))
+        if o['op'] == 8 and o['res'] != 0:
+            V.append(('C18:concurrent-notify-result', 'thread %d: notify on a cell nobody waits on woke %d' % (o['t'], o['res'])))
+    if adds:
+        olds_ = sorted(o['res'] for o in adds)
+        if olds_ != list(range(len(adds))) or counter != len(adds):
+            V.append(('C18:atomic-lost-during-grow', '%d atomic increments of the shared counter ran while the memory was growing: final value %d, returned old values %s' % (
+                len(adds), counter, 'are a permutation of 0..n-1' if olds_ == list(range(len(adds))) else 'repeat or skip (first anomaly near %s)' % next((a for a, b in zip(olds_, range(len(adds))) if a != b), '?'))))
+    stats['other_ops'] = sum(1 for o in ops if o['op'] >= 7)
     sig = tuple((o['t'], o['arg']) for o in olds[:40])
     return V, stats, sig
 
@@ -131,10 +150,10 @@ def main(chk):
         if t.rc != 0:
             chk.violation('C18:translate', 'module rejected: %s' % t.err[-300:], {'module.wasm': b})
             return
-        srcs = [os.path.join(d, f) for f in t.files if f.endswith('.c')] + [os.path.join(env.VERIF, 'harness', 'grow_stress.c')]
+        srcs = [os.path.join(d, f) for f in t.files if f.endswith('.c')] + [os.path.join(env.VERIF, 'harness', 'grow_stress.c')] + [os.path.join(env.REPO, 'futex', f) for f in ('futex.c', 'list.c', 'map.c')]
         for tag, fl in (('plain', ['-O1', '-g', '-DW2C2_VERIF=1']), ('tsan', ['-O1', '-g', '-fsanitize=thread', '-DW2C2_VERIF=1']), ('noguard', ['-O2'])):
             exe = os.path.join(d, 'gs-' + tag)
-            r = env.run(['gcc'] + fl + ['-w', '-DWASM_THREADS_PTHREADS', '-I', e2e.base_include(), '-I', d] + srcs + ['-o', exe, '-lpthread', '-lm'], timeout=600)
+            r = env.run(['gcc'] + fl + ['-w', '-DWASM_THREADS_PTHREADS', '-I', e2e.base_include(), '-I', os.path.join(env.REPO, 'futex'), '-I', d] + srcs + ['-o', exe, '-lpthread', '-lm'], timeout=600)
             if r.rc != 0:
                 chk.violation('C18:compile:%s' % tag, 'grow harness does not build: %s' % r.err[-1500:], {'module.wasm': b})
                 continue
@@ -174,6 +193,7 @@ def main(chk):
         chk.observe('grows_ok', stats.get('grows_ok', 0))
         chk.observe('grows_failed', stats.get('grows_failed', 0))
         chk.observe('accesses_to_grown_pages', stats.get('frontier_ops', 0))
+        chk.observe('wait_notify_atomic_ops_during_grows', stats.get('other_ops', 0))
         chk.observe('histories_' + tag)
         if stats.get('growing_threads', 0) >= 2:
             contended += 1
